@@ -137,7 +137,8 @@ macro_rules! rat_harnesses {
 }
 
 rat_harnesses!(r_i8, i8, i32, 7, 12);
-rat_harnesses!(r_i16, i16, i32, 10, 13);
+rat_harnesses!(r_i16, i16, i32, 7, 12);
+rat_harnesses!(r_i16b, i16, i32, 10, 13);
 rat_harnesses!(r_i32, i32, i64, 10, 13);
 rat_harnesses!(r_i64, i64, i128, 7, 12);
 rat_harnesses!(r_i128, i128, i128, 5, 11);
